@@ -211,7 +211,6 @@ int32 matrixSslDecodeTls13(ssl_t *ssl,
     decryptTo = *in;
 
     /* Parse and validate record header. */
-parse_next_record_header:
     rc = tls13ParseRecordHeader(ssl,
             &pb,
             requiredLen);
@@ -268,17 +267,15 @@ parse_next_record_header:
         HANDLE_PARSE_RC(rc, SSL_ALERT_ILLEGAL_PARAMETER);
         psTraceInfo("Ignoring change_cipher_spec...\n");
         parsedBytes = pb.buf.start - *in;
-        if (pb.buf.start != pb.buf.end)
-        {
-            /* There is more data to be parsed */
-            goto parse_next_record_header; /* Ignore, as per spec. */
-        }
-        /* Done - tell the caller what we've consumed. */
+        /* Ignore, as per spec: tell the caller what we've consumed. Any
+           following record is decoded by the caller's next call, so that
+           ssl->rec always describes exactly the bytes one call consumed
+           (matrixSslProcessedData compacts the buffer by that amount). */
         *in += parsedBytes;
         *len -= parsedBytes;
         *remaining -= PS_MIN(parsedBytes, *remaining);
         /* If there's handshake message waiting in outbuf then send it */
-        if (ssl->outlen > 0)
+        if (ssl->outlen > 0 && pb.buf.start == pb.buf.end)
         {
             return SSL_SEND_RESPONSE;
         }
